@@ -59,6 +59,9 @@ func c11Gen(rt *rapid.T) c11Input {
 func c11Known(cdc *cdcCodec, v reflect.Value, kind, detail string) (string, string) {
 	name := cdcShort(cdc.Name)
 	switch {
+	// (first: the value-feature classifiers below would otherwise claim a .Theta mismatch of a State that also holds an empty storage key)
+	case (name == "State" && cdc.Type == reflect.TypeOf(types.State{})) && kind == "mismatch" && strings.HasPrefix(detail, ".Theta"):
+		return "KF-C11-8", "State.Encode/Decode skip Theta (7.4 last accumulation outputs): " + detail
 	case name == "AccumulatedServiceOutput" && kind == "nondeterministic" && v.Len() >= 2:
 		return "KF-C11-1", "AccumulatedServiceOutput.Encode ranges over the map without sorting: " + detail
 	case kind != "nondeterministic" && kind != "encode" &&
@@ -83,8 +86,6 @@ func c11Known(cdc *cdcCodec, v reflect.Value, kind, detail string) (string, stri
 			return ok
 		}):
 		return "KF-C11-7", "Storage.Decode returns in the middle of the dictionary at a zero-length key: " + detail
-	case (name == "State" && cdc.Type == reflect.TypeOf(types.State{})) && kind == "mismatch" && strings.HasPrefix(detail, ".Theta"):
-		return "KF-C11-8", "State.Encode/Decode skip Theta (7.4 last accumulation outputs): " + detail
 	}
 	return "", ""
 }
